@@ -23,7 +23,7 @@ import (
 	"verif/ev"
 )
 
-var c05E2EEntries = []string{"adapter.stream", "simple.stream", "nats.client", "nats.server", "nats.sub", "stomp.sub", "http", "http.client"}
+var c05E2EEntries = []string{"adapter.stream", "simple.stream", "nats.client", "nats.server", "nats.sub", "stomp.sub", "http", "http.client", "adapter.sessions"}
 
 // waitFor polls cond up to d.
 func waitFor(d time.Duration, cond func() bool) bool {
@@ -330,6 +330,76 @@ func execC05E2EInner(c c05Case) *ev.Failure {
 		}
 		return nil
 
+	case "adapter.sessions":
+		// one transport object through several sessions: a monitor that has already retired
+		// (clean Close), then the hostile bytes end two sessions in a row; every call still returns
+		st := newScriptT()
+		tr := frugal.NewAdapterTransport(st)
+		withMonitor := len(data)%2 == 0
+		if withMonitor {
+			tr.SetMonitor(&frugal.BaseFTransportMonitor{MaxReopenAttempts: 0, InitialWait: time.Millisecond, MaxWait: time.Millisecond})
+		}
+		guard := func(what string, f func()) *ev.Failure {
+			if ok, p := within(5*time.Second, f); !ok {
+				return ev.Failf("adapter-wedged", "%s did not return within 5s (monitor set: %v; %s)\n%s", what, withMonitor, c.Desc, allStacks())
+			} else if p != "" {
+				return ev.Failf("panic:e2e:adapter.sessions", "%s", p)
+			}
+			return nil
+		}
+		var err error
+		if f := guard("Open", func() { err = tr.Open() }); f != nil || err != nil {
+			return orFail(f, ev.Failf("harness:open", "%v", err))
+		}
+		if f := guard("Close", func() { tr.Close() }); f != nil {
+			return f
+		}
+		// sessions that are closed again before their read loop may have started running
+		for i, n := 0, (len(data)%4)*8; i < n; i++ {
+			if f := guard("Open/Close churn", func() { tr.Open(); tr.Close() }); f != nil {
+				return f
+			}
+		}
+		for session := 1; session <= 3; session++ {
+			if f := guard(fmt.Sprintf("Open (session %d)", session), func() { err = tr.Open() }); f != nil || err != nil {
+				return orFail(f, ev.Failf("adapter-reopen", "session %d: Open after a session ended by hostile bytes: %v", session, err))
+			}
+			closed := tr.Closed()
+			if session == 3 {
+				// the last session must work
+				ctx3 := frugal.NewFContext("").SetTimeout(5 * time.Second)
+				st.onFlush = func([]byte) { st.feed(validReply(c.Proto, opidOf(ctx3), "ok")) }
+				var rerr error
+				if f := guard("Request", func() { _, rerr = tr.Request(ctx3, refFrame([]byte("z"))) }); f != nil {
+					return f
+				}
+				st.onFlush = nil
+				if rerr != nil {
+					st.mu.Lock()
+					lc := st.lastClose
+					st.mu.Unlock()
+					return ev.Failf("adapter-reopened-conn", "request in the session after two hostile ones failed: %v (%s)\nlast Close of the stream: %s", rerr, c.Desc, lc)
+				}
+				guard("Close", func() { tr.Close() })
+				break
+			}
+			st.feed(data)
+			st.cut(eofErr())
+			select {
+			case <-closed:
+			case <-time.After(5 * time.Second):
+				return ev.Failf("adapter-not-closed", "session %d: no close cause published within 5s after hostile bytes + EOF (monitor set: %v; %s)\n%s", session, withMonitor, c.Desc, allStacks())
+			}
+			var open bool
+			if f := guard(fmt.Sprintf("IsOpen (session %d)", session), func() { open = tr.IsOpen() }); f != nil {
+				return f
+			}
+			if open {
+				return ev.Failf("adapter-still-open", "session %d: IsOpen() true after the close cause was published", session)
+			}
+		}
+		return nil
+
 	case "http.client":
 		// a peer HTTP server answers the first call with the hostile body and every later call properly
 		var n int64
@@ -408,3 +478,10 @@ func lastToken(s string) string {
 var c05E2EProp = ev.Prop("c05.e2e", genC05For(c05E2EEntries), execC05E2E, classifyC05, sampleC05)
 
 func TestC05E2E(t *testing.T) { rapid.Check(t, c05E2EProp) }
+
+func orFail(a, b *ev.Failure) *ev.Failure {
+	if a != nil {
+		return a
+	}
+	return b
+}
